@@ -29,6 +29,7 @@ LISTS = {
     'onecell_obs': [['A:A', 'A1'], ['B1', 'A:A'], ['1:1', 'C1']],
     'cse_opq': [['D2', 'B1'], ['B1:B3', 'D3'], ['D1:D3', 'B2']],
     'table_opq': [['B3', 'C2'], ['A2:B4', 'B2'], ['B4', 'B2', 'B3']],
+    'refval_opq': [['A1', 'B2'], ['C1', 'D1'], ['A1:D1', 'B2'], ['D1', 'A1:B2']],
 }
 
 
@@ -163,6 +164,7 @@ def run(tier, seed):
         jobs.append(('cse_obs', [2], ['A1'], 'Loaded', seed, 120))     # D63
         jobs.append(('cse_opq', [2], ['A1'], 'NoData', seed, 120))
         jobs.append(('table_opq', [5], ['A2'], 'NoData', seed, 120))
+        jobs.append(('refval_opq', [2], [], 'NoData', seed, 120))
     else:
         for name in W.WORKBOOKS_OBS:
             for src in ('NoData', 'Stored', 'Loaded'):
@@ -172,6 +174,11 @@ def run(tier, seed):
             for src in ('NoData', 'Loaded'):
                 # (all four inputs of cse_opq settable gives 8 x 10^5 transitions)
                 ins = sorted(W.WORKBOOKS_OPAQUE[name]['inputs'])
+                if name == 'refval_opq':
+                    # evaluate only: what a computed reference points to is no
+                    # written precedent, set_value histories are not C05's
+                    jobs.append((name, [2], [], src, seed, 720))
+                    continue
                 jobs.append((name, [2, 'a'], ins[:2] if src == 'NoData' else None, src,
                              seed, 720))
         jobs.append(('chain_obs', [None, 2], None, 'NoData', seed, 0))
